@@ -84,6 +84,30 @@ fn check_value(wt: &WireType, input: &[u8], how: &str, st: &mut Stats, max_alts:
     if wire::write(&tree) != enc {
         fail("not_canonical", "encode(v) does not use minimal varints / canonical lengths (independent writer disagrees)".into());
     }
+    // the same fields with over-long (non-minimal) varints as values / keys / length prefixes: valid protobuf,
+    // must normalise to encode(v) and decode to an equal value
+    for (name, values, keys, lens) in [("values", true, false, false), ("keys", false, true, false), ("length prefixes", false, false, true), ("values, keys and length prefixes", true, true, true)] {
+        let ab = wire::write_padded(&tree, values, keys, lens);
+        if ab == enc {
+            continue;
+        }
+        st.alternatives += 1;
+        match catch(|| canonical_raw(&ab, &wt.descriptor)) {
+            Ok(Ok(c)) => {
+                if c != enc {
+                    fail("overlong_varint_not_normalised", format!("a serialisation with over-long varints as {name} does not normalise to encode(v): alt {}", hex(&ab)));
+                }
+            }
+            Ok(Err(e)) => fail("overlong_varint_not_normalised", format!("canonical_raw failed on a serialisation with over-long varints as {name}: {e:#}")),
+            Err(p) => fail("panic", format!("canonical_raw panicked on over-long varints: {p}")),
+        }
+        match catch(|| (wt.equal)(&ab, &enc)) {
+            Ok(Ok(true)) => {}
+            Ok(Ok(false)) => fail("alt_decodes_differently", format!("a serialisation with over-long varints as {name} decodes to a different value: alt {}", hex(&ab))),
+            Ok(Err(e)) => fail("alt_decodes_differently", format!("a serialisation with over-long varints as {name} does not decode: {e:#}")),
+            Err(p) => fail("panic", format!("decode panicked on over-long varints: {p}")),
+        }
+    }
     for alt in wire::alternatives(&tree).into_iter().take(max_alts) {
         st.alternatives += 1;
         let ab = wire::write(&alt);
